@@ -556,6 +556,12 @@ func (this *LZXCodec) Forward(src, dst []byte) (uint, uint, error) {
 	// Emit last literals
 	litLen := count - anchor
 
+	if litLen >= 1<<24 {
+		// Same limit as for the literal runs inside the block: the length
+		// would not fit the 3 bytes emitLengthLZ stores
+		return 0, 0, errors.New("LZCodec forward transform skip: too many literals")
+	}
+
 	if dstIdx+litLen+tkIdx+mIdx >= count {
 		return uint(count), uint(dstIdx), errors.New("LZCodec forward transform skip: no compression")
 	}
